@@ -150,6 +150,11 @@ class Evaluator:
             raise Cannot("member %s" % short(e))
         if k == "assert":
             return None
+        if k in ("initlist", "stdinitlist"):
+            items = e.get("e")
+            if isinstance(items, dict):
+                return self.ev(items, env)
+            return ("tuple", tuple(self.ev(a, env) for a in (items or [])))
         raise Cannot("expression %s" % short(e)[:80])
 
     def store(self, lhs, v, env):
@@ -194,6 +199,13 @@ class Evaluator:
 
     def construct(self, e, env):
         t = e.get("ct", e.get("t", ""))
+        if t.startswith(("std::pair<", "const std::pair<", "std::tuple<", "const std::tuple<")):
+            args = e.get("args", [])
+            if e.get("copy") and len(args) == 1:
+                return self.ev(args[0], env)
+            if len(args) == 1 and args[0].get("k") in ("initlist", "stdinitlist"):
+                return self.ev(args[0], env)
+            return ("tuple", tuple(self.ev(a, env) for a in args))
         if "type_t" in t:
             args = e.get("args", [])
             if not args:
@@ -376,6 +388,14 @@ class Evaluator:
             raise Ret(self.ev(n["e"], env) if n.get("e") is not None else None)
         if k == "decl":
             for v in n["vars"]:
+                if v.get("bindings"):
+                    # structured binding: `const auto [a, b] = f(x);` with f returning a pair / tuple
+                    val = self.ev(v["init"], env) if v.get("init") is not None else None
+                    if not (isinstance(val, tuple) and val and val[0] == "tuple" and len(val[1]) == len(v["bindings"])):
+                        raise Cannot("structured binding of %r" % (val,))
+                    for b, x in zip(v["bindings"], val[1]):
+                        env[b["name"]] = x
+                    continue
                 if v.get("init") is not None:
                     try:
                         env[v["name"]] = self.ev(v["init"], env)
